@@ -44,8 +44,10 @@ Definition is_cancelled (r : rcode) : bool := match r with RCancelled _ => true 
     [strict]: only answers a component-model host can give (count within bounds, known code,
     [CANCELLED] only as the answer of a cancel intrinsic: [incancel]); otherwise [None] = invalid
     scenario.  Non-strict (malformed-host stream): out-of-range counts are clamped for the data
-    movement but the code is passed on unchanged so that the runtime's own checks are reached. *)
-Definition host_moves (strict incancel : bool) (avail : list N) (a : N) : option (list N) :=
+    movement but the code is passed on unchanged so that the runtime's own checks are reached
+    ([limit]: the length the runtime passed; a count within it that exceeds what can be moved is
+    never valid: the host always moves what it reports). *)
+Definition host_moves (strict incancel : bool) (limit : nat) (avail : list N) (a : N) : option (list N) :=
   if N.eqb a BLOCKED then Some []
   else match decode a with
        | None => if strict then None else Some []
@@ -54,7 +56,9 @@ Definition host_moves (strict incancel : bool) (avail : list N) (a : N) : option
            else
              let k := rcode_count r in
              if k <=? N.of_nat (length avail) then Some (firstn (N.to_nat k) avail)
-             else if strict then None else Some avail
+             else if strict then None
+             else if k <=? N.of_nat limit then None      (* a host that reports more than it moved *)
+             else Some avail
        end.
 
 Definition tw (l : list N) : list tok := match l with [] => [] | _ => [KTw l] end.
@@ -80,26 +84,27 @@ Record wst := mkW {
   w_sent : list N;              (* every item the host took, in order *)
   w_ret : list N;               (* ghost: items handed back to the caller *)
   w_drop : list N;              (* ghost: items dropped by the runtime on the writer side *)
-  w_rep : list (N * N);         (* ghost: per resolved write (moved by host, count reported) *)
+ w_rep : list (N * N);         (* ghost: per resolved write (moved by host, count reported) *)
+  w_lg : ledger;                (* ghost: ledger of the writer end = fold of [lg_tok_w] over every token emitted *)
   w_ans : list N;               (* answers available to this action *)
   w_out : list tok              (* tokens of this action *)
 }.
 
-Definition w_init : wst := mkW true false None None None None 0 0 [] [] [] [] [] [].
+Definition w_init : wst := mkW true false None None None None 0 0 [] [] [] [] lg_empty [] [].
 
-Definition wset_alive x w := mkW x (w_done w) (w_fut w) (w_buf w) (w_busy w) (w_ev w) (w_moved w) (w_next w) (w_sent w) (w_ret w) (w_drop w) (w_rep w) (w_ans w) (w_out w).
-Definition wset_done x w := mkW (w_alive w) x (w_fut w) (w_buf w) (w_busy w) (w_ev w) (w_moved w) (w_next w) (w_sent w) (w_ret w) (w_drop w) (w_rep w) (w_ans w) (w_out w).
-Definition wset_fut x w := mkW (w_alive w) (w_done w) x (w_buf w) (w_busy w) (w_ev w) (w_moved w) (w_next w) (w_sent w) (w_ret w) (w_drop w) (w_rep w) (w_ans w) (w_out w).
-Definition wset_buf x w := mkW (w_alive w) (w_done w) (w_fut w) x (w_busy w) (w_ev w) (w_moved w) (w_next w) (w_sent w) (w_ret w) (w_drop w) (w_rep w) (w_ans w) (w_out w).
-Definition wset_host b e m w := mkW (w_alive w) (w_done w) (w_fut w) (w_buf w) b e m (w_next w) (w_sent w) (w_ret w) (w_drop w) (w_rep w) (w_ans w) (w_out w).
-Definition wset_next x w := mkW (w_alive w) (w_done w) (w_fut w) (w_buf w) (w_busy w) (w_ev w) (w_moved w) x (w_sent w) (w_ret w) (w_drop w) (w_rep w) (w_ans w) (w_out w).
-Definition wadd_sent x w := mkW (w_alive w) (w_done w) (w_fut w) (w_buf w) (w_busy w) (w_ev w) (w_moved w) (w_next w) (w_sent w ++ x) (w_ret w) (w_drop w) (w_rep w) (w_ans w) (w_out w).
-Definition wadd_ret x w := mkW (w_alive w) (w_done w) (w_fut w) (w_buf w) (w_busy w) (w_ev w) (w_moved w) (w_next w) (w_sent w) (w_ret w ++ x) (w_drop w) (w_rep w) (w_ans w) (w_out w).
-Definition wadd_drop x w := mkW (w_alive w) (w_done w) (w_fut w) (w_buf w) (w_busy w) (w_ev w) (w_moved w) (w_next w) (w_sent w) (w_ret w) (w_drop w ++ x) (w_rep w) (w_ans w) (w_out w).
-Definition wadd_rep x w := mkW (w_alive w) (w_done w) (w_fut w) (w_buf w) (w_busy w) (w_ev w) (w_moved w) (w_next w) (w_sent w) (w_ret w) (w_drop w) (w_rep w ++ [x]) (w_ans w) (w_out w).
-Definition wset_ans x w := mkW (w_alive w) (w_done w) (w_fut w) (w_buf w) (w_busy w) (w_ev w) (w_moved w) (w_next w) (w_sent w) (w_ret w) (w_drop w) (w_rep w) x (w_out w).
-Definition wemit x w := mkW (w_alive w) (w_done w) (w_fut w) (w_buf w) (w_busy w) (w_ev w) (w_moved w) (w_next w) (w_sent w) (w_ret w) (w_drop w) (w_rep w) (w_ans w) (w_out w ++ x).
-Definition wclear w := mkW (w_alive w) (w_done w) (w_fut w) (w_buf w) (w_busy w) (w_ev w) (w_moved w) (w_next w) (w_sent w) (w_ret w) (w_drop w) (w_rep w) [] [].
+Definition wset_alive x w := mkW x (w_done w) (w_fut w) (w_buf w) (w_busy w) (w_ev w) (w_moved w) (w_next w) (w_sent w) (w_ret w) (w_drop w) (w_rep w) (w_lg w) (w_ans w) (w_out w).
+Definition wset_done x w := mkW (w_alive w) x (w_fut w) (w_buf w) (w_busy w) (w_ev w) (w_moved w) (w_next w) (w_sent w) (w_ret w) (w_drop w) (w_rep w) (w_lg w) (w_ans w) (w_out w).
+Definition wset_fut x w := mkW (w_alive w) (w_done w) x (w_buf w) (w_busy w) (w_ev w) (w_moved w) (w_next w) (w_sent w) (w_ret w) (w_drop w) (w_rep w) (w_lg w) (w_ans w) (w_out w).
+Definition wset_buf x w := mkW (w_alive w) (w_done w) (w_fut w) x (w_busy w) (w_ev w) (w_moved w) (w_next w) (w_sent w) (w_ret w) (w_drop w) (w_rep w) (w_lg w) (w_ans w) (w_out w).
+Definition wset_host b e m w := mkW (w_alive w) (w_done w) (w_fut w) (w_buf w) b e m (w_next w) (w_sent w) (w_ret w) (w_drop w) (w_rep w) (w_lg w) (w_ans w) (w_out w).
+Definition wset_next x w := mkW (w_alive w) (w_done w) (w_fut w) (w_buf w) (w_busy w) (w_ev w) (w_moved w) x (w_sent w) (w_ret w) (w_drop w) (w_rep w) (w_lg w) (w_ans w) (w_out w).
+Definition wadd_sent x w := mkW (w_alive w) (w_done w) (w_fut w) (w_buf w) (w_busy w) (w_ev w) (w_moved w) (w_next w) (w_sent w ++ x) (w_ret w) (w_drop w) (w_rep w) (w_lg w) (w_ans w) (w_out w).
+Definition wadd_ret x w := mkW (w_alive w) (w_done w) (w_fut w) (w_buf w) (w_busy w) (w_ev w) (w_moved w) (w_next w) (w_sent w) (w_ret w ++ x) (w_drop w) (w_rep w) (w_lg w) (w_ans w) (w_out w).
+Definition wadd_drop x w := mkW (w_alive w) (w_done w) (w_fut w) (w_buf w) (w_busy w) (w_ev w) (w_moved w) (w_next w) (w_sent w) (w_ret w) (w_drop w ++ x) (w_rep w) (w_lg w) (w_ans w) (w_out w).
+Definition wadd_rep x w := mkW (w_alive w) (w_done w) (w_fut w) (w_buf w) (w_busy w) (w_ev w) (w_moved w) (w_next w) (w_sent w) (w_ret w) (w_drop w) (w_rep w ++ [x]) (w_lg w) (w_ans w) (w_out w).
+Definition wset_ans x w := mkW (w_alive w) (w_done w) (w_fut w) (w_buf w) (w_busy w) (w_ev w) (w_moved w) (w_next w) (w_sent w) (w_ret w) (w_drop w) (w_rep w) (w_lg w) x (w_out w).
+Definition wemit (k : kind) x w := mkW (w_alive w) (w_done w) (w_fut w) (w_buf w) (w_busy w) (w_ev w) (w_moved w) (w_next w) (w_sent w) (w_ret w) (w_drop w) (w_rep w) (lg_toks_w k x (w_lg w)) (w_ans w) (w_out w ++ x).
+Definition wclear w := mkW (w_alive w) (w_done w) (w_fut w) (w_buf w) (w_busy w) (w_ev w) (w_moved w) (w_next w) (w_sent w) (w_ret w) (w_drop w) (w_rep w) (w_lg w) [] [].
 
 (** Next scripted answer; [BLOCKED] when the script is exhausted. *)
 Definition wpop (w : wst) : N * wst :=
@@ -139,7 +144,7 @@ Definition wop_with_code (k : kind) (b : abuf) (code : N) (w : wst) : res (wst *
   | WUPanic => Panic (w_out w)
   | WUBlocked => Ok (w, WPending (mkWop true b None))
   | WUOk r b' sd t =>
-      let w := wemit t w in
+      let w := wemit k t w in
       let w := if sd then wset_done true w else w in
       let w := wadd_rep (w_moved w, sres_count r) w in
       let w := wset_host (w_busy w) (w_ev w) 0 w in
@@ -159,10 +164,10 @@ Definition wop_poll (strict : bool) (k : kind) (o : wop) (w : wst) : res (wst * 
     else
       let off := ab_offered b in
       let (a, w) := wpop w in
-      match host_moves strict false off a with
+      match host_moves strict false (length off) off a with
       | None => Invalid
       | Some mv =>
-          let w := wemit (tw mv ++ [KWrite (min_len (length off)) a]) w in
+          let w := wemit k (tw mv ++ [KWrite (min_len (length off)) a]) w in
           let w := wadd_sent mv w in
           let w := wset_host (if N.eqb a BLOCKED then Some off else None) None (N.of_nat (length mv)) w in
           wop_with_code k b a w
@@ -188,15 +193,15 @@ Definition wop_cancel (strict : bool) (k : kind) (o : wop) (w : wst) : res (wst 
         | Some off =>
             match w_ev w with
             | Some c =>
-                let w := wemit [KCancelW c] w in
+                let w := wemit k [KCancelW c] w in
                 finish c (wset_host None None (w_moved w) w)
             | None =>
                 let (a, w) := match w_ans w with [] => (CANCELLED, w) | a :: r => (a, wset_ans r w) end in
                 if strict && N.eqb a BLOCKED then Invalid else
-                match host_moves strict true off a with
+                match host_moves strict true (length off) off a with
                 | None => Invalid
                 | Some mv =>
-                    let w := wemit (tw mv ++ [KCancelW a]) w in
+                    let w := wemit k (tw mv ++ [KCancelW a]) w in
                     let w := wadd_sent mv w in
                     finish a (wset_host None None (N.of_nat (length mv)) w)
                 end
@@ -206,11 +211,11 @@ Definition wop_cancel (strict : bool) (k : kind) (o : wop) (w : wst) : res (wst 
 
 (** Drop of an [AbiBuffer]. *)
 Definition w_drop_buf (k : kind) (b : abuf) (w : wst) : wst :=
-  wadd_drop (ab_offered b) (wemit (ab_drop k b) w).
+  wadd_drop (ab_offered b) (wemit k (ab_drop k b) w).
 
 (** [into_vec]. *)
 Definition w_into_vec (k : kind) (b : abuf) (w : wst) : wst * list N :=
-  let (v, t) := ab_take_vec k b in (wadd_ret v (wemit t w), v).
+  let (v, t) := ab_take_vec k b in (wadd_ret v (wemit k t w), v).
 
 (** The body of [write_all] from the point where a write resolved with [(r, b)]; [fuel] bounds the
     number of writes started by this poll (each consumes an answer; see [wall_fuel]). *)
@@ -235,7 +240,7 @@ Fixpoint wall_loop (fuel : nat) (strict : bool) (k : kind) (one first : bool) (r
     then Panic (w_out w)
     else
       let (w, v) := w_into_vec k b w in
-      Ok (wemit [if one then KOne (hd_error v) else KAll v] w, None).
+      Ok (wemit k [if one then KOne (hd_error v) else KAll v] w, None).
 
 (** Every write started after the first one consumes a scripted answer unless the writer is [done],
     in which case the loop ends at once; [2 + answers] iterations are always enough. *)
@@ -249,13 +254,13 @@ Definition w_poll (strict : bool) (k : kind) (w : wst) : res wst :=
       match wop_poll strict k o w with
       | Ok (w, WPending o) => Ok (wset_fut (Some (WFOp o)) w)
       | Ok (w, WReady r b) =>
-          Ok (wemit [KResW r (N.of_nat (ab_remaining b))] (wset_buf (Some b) (wset_fut None w)))
+          Ok (wemit k [KResW r (N.of_nat (ab_remaining b))] (wset_buf (Some b) (wset_fut None w)))
       | Invalid => Invalid
       | Panic t => Panic t
       end
   | Some (WFInit one items) =>
       let (b, t) := ab_new k items in
-      let w := wemit t w in
+      let w := wemit k t w in
       match wop_poll strict k (mkWop false b None) w with
       | Ok (w, WPending o) => Ok (wset_fut (Some (WFAll one true o)) w)
       | Ok (w, WReady r b) =>
@@ -308,7 +313,7 @@ Definition wstep (strict : bool) (k : kind) (a : wact) (w0 : wst) : res wst :=
       if w_alive w && idle then
         let items := nseq (w_next w) n in
         let (b, t) := ab_new k items in
-        Ok (wset_fut (Some (WFOp (mkWop false b None))) (wset_next (w_next w + N.of_nat n) (wemit t w)))
+        Ok (wset_fut (Some (WFOp (mkWop false b None))) (wset_next (w_next w + N.of_nat n) (wemit k t w)))
       else Invalid
   | AWriteBuf =>
       match w_buf w with
@@ -329,10 +334,10 @@ Definition wstep (strict : bool) (k : kind) (a : wact) (w0 : wst) : res wst :=
       match w_busy w, w_ev w with
       | Some off, None =>
           if N.eqb code BLOCKED then Invalid else
-          match host_moves strict false off code with
+          match host_moves strict false (length off) off code with
           | None => Invalid
           | Some mv =>
-              let w := wemit (tw mv) w in
+              let w := wemit k (tw mv) w in
               Ok (wset_host (Some off) (Some code) (N.of_nat (length mv)) (wadd_sent mv w))
           end
       | _, _ => Invalid
@@ -351,7 +356,7 @@ Definition wstep (strict : bool) (k : kind) (a : wact) (w0 : wst) : res wst :=
       match w_fut w with
       | Some (WFOp o) =>
           match wop_cancel strict k o (wset_ans ans w) with
-          | Ok (w, r, b) => Ok (wemit [KResW r (N.of_nat (ab_remaining b))] (wset_buf (Some b) (wset_fut None w)))
+          | Ok (w, r, b) => Ok (wemit k [KResW r (N.of_nat (ab_remaining b))] (wset_buf (Some b) (wset_fut None w)))
           | Invalid => Invalid
           | Panic t => Panic t
           end
@@ -361,7 +366,7 @@ Definition wstep (strict : bool) (k : kind) (a : wact) (w0 : wst) : res wst :=
       match w_fut w with
       | None => Invalid
       | Some (WFInit _ items) =>
-          Ok (wadd_drop items (wemit (drop_vals k items) (wset_fut None w)))
+          Ok (wadd_drop items (wemit k (drop_vals k items) (wset_fut None w)))
       | Some f =>
           match fut_op f with
           | None => Invalid
@@ -375,7 +380,7 @@ Definition wstep (strict : bool) (k : kind) (a : wact) (w0 : wst) : res wst :=
       end
   | AWIntoVec =>
       match w_buf w with
-      | Some b => let (w, v) := w_into_vec k b (wset_buf None w) in Ok (wemit [KRet v] w)
+      | Some b => let (w, v) := w_into_vec k b (wset_buf None w) in Ok (wemit k [KRet v] w)
       | None => Invalid
       end
   | AWDropBuf =>
@@ -384,7 +389,7 @@ Definition wstep (strict : bool) (k : kind) (a : wact) (w0 : wst) : res wst :=
       | None => Invalid
       end
   | AWDropEnd =>
-      if w_alive w && negb (is_some (w_fut w)) then Ok (wemit [KDropW] (wset_alive false w)) else Invalid
+      if w_alive w && negb (is_some (w_fut w)) then Ok (wemit k [KDropW] (wset_alive false w)) else Invalid
   end.
 
 (** ** Reader end *)
@@ -420,26 +425,27 @@ Record rst := mkR {
   r_got : list N;               (* ghost: items handed to the caller *)
   r_dropped : list N;           (* ghost: items dropped by the runtime on the reader side *)
   r_rep : list (N * N);
+  r_lg : ledger;                (* ghost: ledger of the reader end = fold of [lg_tok_r] over every token emitted *)
   r_ans : list N;
   r_out : list tok
 }.
 
-Definition r_init : rst := mkR true false None None None None [] None [] [] [] [] [] [] [].
+Definition r_init : rst := mkR true false None None None None [] None [] [] [] [] [] lg_empty [] [].
 
-Definition rset_alive x r := mkR x (r_done r) (r_fut r) (r_ad r) (r_vec r) (r_busy r) (r_inbuf r) (r_ev r) (r_taken r) (r_log r) (r_got r) (r_dropped r) (r_rep r) (r_ans r) (r_out r).
-Definition rset_done x r := mkR (r_alive r) x (r_fut r) (r_ad r) (r_vec r) (r_busy r) (r_inbuf r) (r_ev r) (r_taken r) (r_log r) (r_got r) (r_dropped r) (r_rep r) (r_ans r) (r_out r).
-Definition rset_fut x r := mkR (r_alive r) (r_done r) x (r_ad r) (r_vec r) (r_busy r) (r_inbuf r) (r_ev r) (r_taken r) (r_log r) (r_got r) (r_dropped r) (r_rep r) (r_ans r) (r_out r).
-Definition rset_ad x r := mkR (r_alive r) (r_done r) (r_fut r) x (r_vec r) (r_busy r) (r_inbuf r) (r_ev r) (r_taken r) (r_log r) (r_got r) (r_dropped r) (r_rep r) (r_ans r) (r_out r).
-Definition rset_vec x r := mkR (r_alive r) (r_done r) (r_fut r) (r_ad r) x (r_busy r) (r_inbuf r) (r_ev r) (r_taken r) (r_log r) (r_got r) (r_dropped r) (r_rep r) (r_ans r) (r_out r).
-Definition rset_host b i e r := mkR (r_alive r) (r_done r) (r_fut r) (r_ad r) (r_vec r) b i e (r_taken r) (r_log r) (r_got r) (r_dropped r) (r_rep r) (r_ans r) (r_out r).
-Definition radd_taken x r := mkR (r_alive r) (r_done r) (r_fut r) (r_ad r) (r_vec r) (r_busy r) (r_inbuf r) (r_ev r) (r_taken r ++ x) (r_log r) (r_got r) (r_dropped r) (r_rep r) (r_ans r) (r_out r).
-Definition radd_log x r := mkR (r_alive r) (r_done r) (r_fut r) (r_ad r) (r_vec r) (r_busy r) (r_inbuf r) (r_ev r) (r_taken r) (r_log r ++ x) (r_got r) (r_dropped r) (r_rep r) (r_ans r) (r_out r).
-Definition radd_got x r := mkR (r_alive r) (r_done r) (r_fut r) (r_ad r) (r_vec r) (r_busy r) (r_inbuf r) (r_ev r) (r_taken r) (r_log r) (r_got r ++ x) (r_dropped r) (r_rep r) (r_ans r) (r_out r).
-Definition radd_dropped x r := mkR (r_alive r) (r_done r) (r_fut r) (r_ad r) (r_vec r) (r_busy r) (r_inbuf r) (r_ev r) (r_taken r) (r_log r) (r_got r) (r_dropped r ++ x) (r_rep r) (r_ans r) (r_out r).
-Definition radd_rep x r := mkR (r_alive r) (r_done r) (r_fut r) (r_ad r) (r_vec r) (r_busy r) (r_inbuf r) (r_ev r) (r_taken r) (r_log r) (r_got r) (r_dropped r) (r_rep r ++ [x]) (r_ans r) (r_out r).
-Definition rset_ans x r := mkR (r_alive r) (r_done r) (r_fut r) (r_ad r) (r_vec r) (r_busy r) (r_inbuf r) (r_ev r) (r_taken r) (r_log r) (r_got r) (r_dropped r) (r_rep r) x (r_out r).
-Definition remit x r := mkR (r_alive r) (r_done r) (r_fut r) (r_ad r) (r_vec r) (r_busy r) (r_inbuf r) (r_ev r) (r_taken r) (r_log r) (r_got r) (r_dropped r) (r_rep r) (r_ans r) (r_out r ++ x).
-Definition rclear r := mkR (r_alive r) (r_done r) (r_fut r) (r_ad r) (r_vec r) (r_busy r) (r_inbuf r) (r_ev r) (r_taken r) (r_log r) (r_got r) (r_dropped r) (r_rep r) [] [].
+Definition rset_alive x r := mkR x (r_done r) (r_fut r) (r_ad r) (r_vec r) (r_busy r) (r_inbuf r) (r_ev r) (r_taken r) (r_log r) (r_got r) (r_dropped r) (r_rep r) (r_lg r) (r_ans r) (r_out r).
+Definition rset_done x r := mkR (r_alive r) x (r_fut r) (r_ad r) (r_vec r) (r_busy r) (r_inbuf r) (r_ev r) (r_taken r) (r_log r) (r_got r) (r_dropped r) (r_rep r) (r_lg r) (r_ans r) (r_out r).
+Definition rset_fut x r := mkR (r_alive r) (r_done r) x (r_ad r) (r_vec r) (r_busy r) (r_inbuf r) (r_ev r) (r_taken r) (r_log r) (r_got r) (r_dropped r) (r_rep r) (r_lg r) (r_ans r) (r_out r).
+Definition rset_ad x r := mkR (r_alive r) (r_done r) (r_fut r) x (r_vec r) (r_busy r) (r_inbuf r) (r_ev r) (r_taken r) (r_log r) (r_got r) (r_dropped r) (r_rep r) (r_lg r) (r_ans r) (r_out r).
+Definition rset_vec x r := mkR (r_alive r) (r_done r) (r_fut r) (r_ad r) x (r_busy r) (r_inbuf r) (r_ev r) (r_taken r) (r_log r) (r_got r) (r_dropped r) (r_rep r) (r_lg r) (r_ans r) (r_out r).
+Definition rset_host b i e r := mkR (r_alive r) (r_done r) (r_fut r) (r_ad r) (r_vec r) b i e (r_taken r) (r_log r) (r_got r) (r_dropped r) (r_rep r) (r_lg r) (r_ans r) (r_out r).
+Definition radd_taken x r := mkR (r_alive r) (r_done r) (r_fut r) (r_ad r) (r_vec r) (r_busy r) (r_inbuf r) (r_ev r) (r_taken r ++ x) (r_log r) (r_got r) (r_dropped r) (r_rep r) (r_lg r) (r_ans r) (r_out r).
+Definition radd_log x r := mkR (r_alive r) (r_done r) (r_fut r) (r_ad r) (r_vec r) (r_busy r) (r_inbuf r) (r_ev r) (r_taken r) (r_log r ++ x) (r_got r) (r_dropped r) (r_rep r) (r_lg r) (r_ans r) (r_out r).
+Definition radd_got x r := mkR (r_alive r) (r_done r) (r_fut r) (r_ad r) (r_vec r) (r_busy r) (r_inbuf r) (r_ev r) (r_taken r) (r_log r) (r_got r ++ x) (r_dropped r) (r_rep r) (r_lg r) (r_ans r) (r_out r).
+Definition radd_dropped x r := mkR (r_alive r) (r_done r) (r_fut r) (r_ad r) (r_vec r) (r_busy r) (r_inbuf r) (r_ev r) (r_taken r) (r_log r) (r_got r) (r_dropped r ++ x) (r_rep r) (r_lg r) (r_ans r) (r_out r).
+Definition radd_rep x r := mkR (r_alive r) (r_done r) (r_fut r) (r_ad r) (r_vec r) (r_busy r) (r_inbuf r) (r_ev r) (r_taken r) (r_log r) (r_got r) (r_dropped r) (r_rep r ++ [x]) (r_lg r) (r_ans r) (r_out r).
+Definition rset_ans x r := mkR (r_alive r) (r_done r) (r_fut r) (r_ad r) (r_vec r) (r_busy r) (r_inbuf r) (r_ev r) (r_taken r) (r_log r) (r_got r) (r_dropped r) (r_rep r) (r_lg r) x (r_out r).
+Definition remit (k : kind) x r := mkR (r_alive r) (r_done r) (r_fut r) (r_ad r) (r_vec r) (r_busy r) (r_inbuf r) (r_ev r) (r_taken r) (r_log r) (r_got r) (r_dropped r) (r_rep r) (lg_toks_r k x (r_lg r)) (r_ans r) (r_out r ++ x).
+Definition rclear r := mkR (r_alive r) (r_done r) (r_fut r) (r_ad r) (r_vec r) (r_busy r) (r_inbuf r) (r_ev r) (r_taken r) (r_log r) (r_got r) (r_dropped r) (r_rep r) (r_lg r) [] [].
 
 Definition rpop (r : rst) : N * rst :=
   match r_ans r with
@@ -473,7 +479,7 @@ Definition rop_with_code (k : kind) (v : rvec) (area : bool) (code : N) (r : rst
   | RUPanic => Panic (r_out r)
   | RUBlocked => Ok (r, RPending (mkRop true v area None))
   | RUOk s v' sd got t =>
-      let r := remit t r in
+      let r := remit k t r in
       let r := if sd then rset_done true r else r in
       let r := radd_log got r in
       let r := radd_rep (N.of_nat (length (r_inbuf r)), sres_count s) r in
@@ -499,12 +505,12 @@ Definition rop_poll (strict : bool) (k : kind) (base : nat) (avail : list N) (o 
     else
       let cap := v_spare v in
       let area := lifted k && negb (Nat.eqb cap 0) in
-      let r := remit (if area then [KAreaNew] else []) r in
+      let r := remit k (if area then [KAreaNew] else []) r in
       let (a, r) := rpop r in
-      match host_moves strict false (firstn cap (r_avail base avail r)) a with
+      match host_moves strict false cap (firstn cap (r_avail base avail r)) a with
       | None => Invalid
       | Some mv =>
-          let r := remit (tr mv ++ [KRead (min_len cap) a]) r in
+          let r := remit k (tr mv ++ [KRead (min_len cap) a]) r in
           let r := radd_taken mv r in
           let r := rset_host (if N.eqb a BLOCKED then Some cap else None) mv None r in
           rop_with_code k v area a r
@@ -530,15 +536,15 @@ Definition rop_cancel (strict : bool) (k : kind) (base : nat) (avail : list N) (
         | Some cap =>
             match r_ev r with
             | Some c =>
-                let r := remit [KCancelR c] r in
+                let r := remit k [KCancelR c] r in
                 finish c (rset_host None (r_inbuf r) None r)
             | None =>
                 let (a, r) := match r_ans r with [] => (CANCELLED, r) | a :: t => (a, rset_ans t r) end in
                 if strict && N.eqb a BLOCKED then Invalid else
-                match host_moves strict true (firstn cap (r_avail base avail r)) a with
+                match host_moves strict true cap (firstn cap (r_avail base avail r)) a with
                 | None => Invalid
                 | Some mv =>
-                    let r := remit (tr mv ++ [KCancelR a]) r in
+                    let r := remit k (tr mv ++ [KCancelR a]) r in
                     let r := radd_taken mv r in
                     finish a (rset_host None mv None r)
                 end
@@ -548,7 +554,7 @@ Definition rop_cancel (strict : bool) (k : kind) (base : nat) (avail : list N) (
 
 (** Drop of a reader vector. *)
 Definition r_drop_vec (k : kind) (v : rvec) (r : rst) : rst :=
-  radd_dropped (v_items v) (remit (drop_vals k (v_items v)) r).
+  radd_dropped (v_items v) (remit k (drop_vals k (v_items v)) r).
 
 (** [RawVec::grow_amortized] as used by [ret.reserve(1)] when [len == capacity]. *)
 Definition min_non_zero_cap (k : kind) : nat := match k with KCanon => 8 | _ => 4 end.
@@ -558,7 +564,7 @@ Definition v_reserve1 (k : kind) (v : rvec) : rvec :=
   else v.
 
 (** The reader itself is dropped ([stream.drop-readable]). *)
-Definition r_drop_end (r : rst) : rst := remit [KDropR] (rset_alive false r).
+Definition r_drop_end (k : kind) (r : rst) : rst := remit k [KDropR] (rset_alive false r).
 
 (** [collect]'s loop from the point where a read resolved with [(s, v)]. *)
 Fixpoint coll_loop (fuel : nat) (strict : bool) (k : kind) (base : nat) (avail : list N)
@@ -566,8 +572,8 @@ Fixpoint coll_loop (fuel : nat) (strict : bool) (k : kind) (base : nat) (avail :
   match s with
   | SCancelled => Panic (r_out r)               (* unreachable!() *)
   | SDropped =>
-      let r := r_drop_end r in
-      Ok (radd_got (v_items v) (remit [KColl (v_items v)] r), None)
+      let r := r_drop_end k r in
+      Ok (radd_got (v_items v) (remit k [KColl (v_items v)] r), None)
   | SComplete _ =>
       match fuel with
       | O => Invalid
@@ -602,19 +608,19 @@ Definition r_poll (strict : bool) (k : kind) (avail : list N) (r : rst) : res rs
       lift_res (rop_poll strict k base avail o r) (fun '(r, p) =>
         match p with
         | RPending o => Ok (rset_fut (Some (RFOp o)) r)
-        | RReady s v => Ok (remit [KResR s (v_items v)] (rset_vec (Some v) (rset_fut None r)))
+        | RReady s v => Ok (remit k [KResR s (v_items v)] (rset_vec (Some v) (rset_fut None r)))
         end)
   | Some RFNextInit =>
       lift_res (rop_poll strict k base avail (mkRop false (mkV [] 1) false None) r) (fun '(r, p) =>
         match p with
         | RPending o => Ok (rset_fut (Some (RFNext o)) r)
-        | RReady _ v => let (r, x) := next_done k v r in Ok (remit [KNext x] (rset_fut None r))
+        | RReady _ v => let (r, x) := next_done k v r in Ok (remit k [KNext x] (rset_fut None r))
         end)
   | Some (RFNext o) =>
       lift_res (rop_poll strict k base avail o r) (fun '(r, p) =>
         match p with
         | RPending o => Ok (rset_fut (Some (RFNext o)) r)
-        | RReady _ v => let (r, x) := next_done k v r in Ok (remit [KNext x] (rset_fut None r))
+        | RReady _ v => let (r, x) := next_done k v r in Ok (remit k [KNext x] (rset_fut None r))
         end)
   | Some RFCollInit =>
       lift_res (coll_loop (S (coll_fuel r)) strict k base avail (SComplete 0) (mkV [] 0) r)
@@ -638,14 +644,14 @@ Definition ad_poll (strict : bool) (k : kind) (avail : list N) (r : rst) : res r
       | RReady _ v =>
           let (r, x) := next_done k v r in
           match x with
-          | Some _ => Ok (remit [KSn x] (rset_ad (Some AdIdle) r))
-          | None => Ok (remit [KSn None] (r_drop_end (rset_ad (Some AdComplete) r)))
+          | Some _ => Ok (remit k [KSn x] (rset_ad (Some AdIdle) r))
+          | None => Ok (remit k [KSn None] (r_drop_end k (rset_ad (Some AdComplete) r)))
           end
       end) in
   match r_ad r with
   | Some AdIdle => run (mkRop false (mkV [] 1) false None)
   | Some (AdReading o) => run o
-  | Some AdComplete => Ok (remit [KSn None] r)
+  | Some AdComplete => Ok (remit k [KSn None] r)
   | Some AdGone | None => Invalid
   end.
 
@@ -703,10 +709,10 @@ Definition rstep (strict : bool) (k : kind) (avail : list N) (a : ract) (r0 : rs
       match r_busy r, r_ev r with
       | Some cap, None =>
           if N.eqb code BLOCKED then Invalid else
-          match host_moves strict false (firstn cap avail) code with
+          match host_moves strict false cap (firstn cap avail) code with
           | None => Invalid
           | Some mv =>
-              Ok (rset_host (Some cap) mv (Some code) (radd_taken mv (remit (tr mv) r)))
+              Ok (rset_host (Some cap) mv (Some code) (radd_taken mv (remit k (tr mv) r)))
           end
       | _, _ => Invalid
       end
@@ -720,41 +726,41 @@ Definition rstep (strict : bool) (k : kind) (avail : list N) (a : ract) (r0 : rs
       match r_fut r with
       | Some (RFOp o) =>
           lift_res (rop_cancel strict k base avail o (rset_ans ans r)) (fun '(r, s, v) =>
-            Ok (remit [KResR s (v_items v)] (rset_vec (Some v) (rset_fut None r))))
+            Ok (remit k [KResR s (v_items v)] (rset_vec (Some v) (rset_fut None r))))
       | _ => Invalid
       end
   | ARDropFut ans =>
       let r := rset_ans ans r in
       match r_fut r, r_ad r with
       | Some RFNextInit, _ => Ok (rset_fut None r)
-      | Some RFCollInit, _ => Ok (r_drop_end (rset_fut None r))
+      | Some RFCollInit, _ => Ok (r_drop_end k (rset_fut None r))
       | Some (RFOp o), _ | Some (RFNext o), _ =>
           lift_res (rop_cancel strict k base avail o r) (fun '(r, _, v) =>
             Ok (r_drop_vec k v (rset_fut None r)))
       | Some (RFColl o), _ =>
           lift_res (rop_cancel strict k base avail o r) (fun '(r, _, v) =>
-            Ok (r_drop_end (r_drop_vec k v (rset_fut None r))))
-      | None, Some AdIdle => Ok (r_drop_end (rset_ad (Some AdGone) r))
+            Ok (r_drop_end k (r_drop_vec k v (rset_fut None r))))
+      | None, Some AdIdle => Ok (r_drop_end k (rset_ad (Some AdGone) r))
       | None, Some (AdReading o) =>
           lift_res (rop_cancel strict k base avail o r) (fun '(r, _, v) =>
-            Ok (r_drop_end (r_drop_vec k v (rset_ad (Some AdGone) r))))
+            Ok (r_drop_end k (r_drop_vec k v (rset_ad (Some AdGone) r))))
       | None, Some AdComplete => Ok (rset_ad (Some AdGone) r)
       | None, Some AdGone | None, None => Invalid
       end
   | ATakeVec =>
       match r_vec r with
-      | Some v => Ok (radd_got (v_items v) (remit [KGot (v_items v)] (rset_vec None r)))
+      | Some v => Ok (radd_got (v_items v) (remit k [KGot (v_items v)] (rset_vec None r)))
       | None => Invalid
       end
   | ARDropEnd =>
-      if plain then Ok (r_drop_end r) else Invalid
+      if plain then Ok (r_drop_end k r) else Invalid
   end.
 
 (** ** Both ends *)
 Inductive act := AW (a : wact) | AR (a : ract).
 
-Record st := mkSt { s_w : wst; s_r : rst; s_lg : ledger }.
-Definition st_init : st := mkSt w_init r_init lg_empty.
+Record st := mkSt { s_w : wst; s_r : rst }.
+Definition st_init : st := mkSt w_init r_init.
 
 (** Items in flight: taken from the writer, not yet stored into a reader buffer. *)
 Definition pipe (s : st) : list N := skipn (length (r_taken (s_r s))) (w_sent (s_w s)).
@@ -763,13 +769,13 @@ Definition step (strict : bool) (k : kind) (a : act) (s : st) : res (st * list t
   match a with
   | AW a =>
       match wstep strict k a (s_w s) with
-      | Ok w => Ok (mkSt w (s_r s) (lg_toks k (w_out w) (s_lg s)), w_out w)
+      | Ok w => Ok (mkSt w (s_r s), w_out w)
       | Invalid => Invalid
       | Panic t => Panic t
       end
   | AR a =>
       match rstep strict k (pipe s) a (s_r s) with
-      | Ok r => Ok (mkSt (s_w s) r (lg_toks k (r_out r) (s_lg s)), r_out r)
+      | Ok r => Ok (mkSt (s_w s) r, r_out r)
       | Invalid => Invalid
       | Panic t => Panic t
       end
